@@ -204,15 +204,13 @@ Proof. intros H. unfold monday_of, weekday. destruct (days_cfd z) as [_ ->]. Z.d
 Lemma iso_monday_is_monday y w : (iso_monday y w + 3) mod 7 = 0.
 Proof. unfold iso_monday. pose proof (week1_monday_bounds y) as [_ M]. Z.div_mod_to_equations; lia. Qed.
 
-(* the body of NewWeekFromString *)
-Lemma week_from_numbers_spec y w : 0 <= y <= 9999 -> 0 <= w <= 99 ->
-  week_from_numbers y w =
-    if w <? 1 then Err EInvalidPeriod
-    else if (y =? 9999) && (53 <=? w) then Crash CUnrepresentableDate
-    else if w <=? weeks_in_year y then Ok (civil_from_days (iso_monday y w))
-    else Err EInvalidPeriod.
+(* the closure of NewWeekFromString before recover(): the Monday of ISO week (y, w), a panic when that Monday or
+   the Sunday after it lies beyond 9999-12-31 *)
+Lemma week_reference_spec y w : 0 <= y <= 9999 -> 1 <= w <= 99 ->
+  week_reference y w =
+    if iso_monday y w + 6 <=? D1 then Ok (civil_from_days (iso_monday y w)) else Crash CUnrepresentableDate.
 Proof.
-  intros Hy Hw. unfold week_from_numbers. destruct (w <? 1) eqn:E1; [reflexivity|].
+  intros Hy Hw. unfold week_reference.
   assert (V0 : valid (mk y 7 1)) by (apply valid_mk; unfold days_in_month; eval_closed; lia).
   rewrite (new_date_valid _ _ _ V0). pose proof (valid_days _ V0) as [W0 R0].
   pose proof (weekday_range (mk y 7 1)) as Wr.
@@ -237,28 +235,48 @@ Proof.
   assert (Ez : M + (w - ((M - week1_monday y) / 7 + 1)) * 7 = iso_monday y w).
   { unfold iso_monday. pose proof (week1_monday_bounds y) as [_ M1]. Z.div_mod_to_equations. lia. }
   rewrite plus_days_spec by exact Wr'. rewrite Er, Ez.
-  pose proof (week1_step y) as [S Rw]. pose proof (week1_step (y + 1)) as [S' Rw'].
   pose proof (week1_ge_D0 y ltac:(lia)) as G0.
-  destruct ((y =? 9999) && (53 <=? w)) eqn:E3.
-  - assert (y = 9999) by lia. subst y. destruct week1_9999 as [W9 _].
-    destruct ((D0 <=? iso_monday 9999 w) && (iso_monday 9999 w <=? D1)) eqn:E4; [|reflexivity].
-    unfold iso_monday in E4. lia.
-  - assert (Hin : D0 <= iso_monday y w <= D1).
-    { unfold iso_monday. split; [lia|].
-      destruct (Z.eq_dec y 9999) as [->|Ny].
-      - destruct week1_9999 as [W9 _]. lia.
-      - pose proof (year_start_mono (y + 1) 9999 ltac:(lia)). pose proof D1_ok.
-        assert (days_from_civil 9999 1 1 = D1 - 364) by reflexivity. lia. }
-    destruct ((D0 <=? iso_monday y w) && (iso_monday y w <=? D1)) eqn:E4; [|lia]. cbn [bind].
-    destruct (cfd_valid_days (iso_monday y w) Hin) as [Vz Ez']. pose proof (valid_days _ Vz) as [Wz _].
-    assert (EMz : monday_of (civil_from_days (iso_monday y w)) = iso_monday y w) by (apply monday_of_cfd_monday; apply iso_monday_is_monday).
-    destruct (w <=? weeks_in_year y) eqn:E5.
-    + rewrite (iso_week_of_monday _ y Wz) by (rewrite EMz; unfold iso_monday; lia). cbn [snd]. rewrite EMz.
-      replace ((iso_monday y w - week1_monday y) / 7 + 1) with w by (unfold iso_monday; Z.div_mod_to_equations; lia).
-      rewrite Z.eqb_refl. reflexivity.
-    + rewrite (iso_week_of_monday _ (y + 1) Wz) by (rewrite EMz; unfold iso_monday; lia). cbn [snd]. rewrite EMz.
-      replace ((iso_monday y w - week1_monday (y + 1)) / 7 + 1) with (w - weeks_in_year y) by (unfold iso_monday; Z.div_mod_to_equations; lia).
-      destruct (w - weeks_in_year y =? w) eqn:E6; [lia|]. reflexivity.
+  assert (Hlo : D0 <= iso_monday y w) by (unfold iso_monday; lia).
+  destruct ((D0 <=? iso_monday y w) && (iso_monday y w <=? D1)) eqn:E4; cbn [bind].
+  - destruct (days_cfd (iso_monday y w)) as [Wz Ez'].
+    rewrite plus_days_spec by exact Wz. rewrite Ez'.
+    destruct ((D0 <=? iso_monday y w + 6) && (iso_monday y w + 6 <=? D1)) eqn:E6; cbn [bind];
+      destruct (iso_monday y w + 6 <=? D1) eqn:E5; try reflexivity; lia.
+  - destruct (iso_monday y w + 6 <=? D1) eqn:E5; [lia|reflexivity].
+Qed.
+
+(* the week ends inside the calendar unless it is week 52 or later of year 9999 *)
+Lemma iso_monday_end y w : 0 <= y <= 9999 -> 1 <= w <= 99 ->
+  (iso_monday y w + 6 <=? D1) = negb ((y =? 9999) && (52 <=? w)).
+Proof.
+  intros Hy Hw. unfold iso_monday. destruct (Z.eq_dec y 9999) as [->|Ny].
+  - destruct week1_9999 as [W9 _]. rewrite W9. lia.
+  - pose proof (week1_monday_bounds y) as [B _]. pose proof (year_start_mono (y + 1) 9999 ltac:(lia)).
+    pose proof (year_start_step y) as Ys. pose proof (year_len_bounds y) as Yl.
+    assert (days_from_civil 9999 1 1 = D1 - 364) by reflexivity. lia.
+Qed.
+
+(* the body of NewWeekFromString (with the fix 9e99f6b: never a panic) *)
+Lemma week_from_numbers_spec y w : 0 <= y <= 9999 -> 0 <= w <= 99 ->
+  week_from_numbers y w =
+    if w <? 1 then Err EInvalidPeriod
+    else if (y =? 9999) && (52 <=? w) then Err EInvalidPeriod
+    else if w <=? weeks_in_year y then Ok (civil_from_days (iso_monday y w))
+    else Err EInvalidPeriod.
+Proof.
+  intros Hy Hw. unfold week_from_numbers. destruct (w <? 1) eqn:E1; [reflexivity|].
+  rewrite week_reference_spec by lia. rewrite iso_monday_end by lia.
+  destruct ((y =? 9999) && (52 <=? w)) eqn:E3; cbn [negb recover_week]; [reflexivity|].
+  pose proof (week1_step y) as [S Rw]. pose proof (week1_step (y + 1)) as [S' Rw'].
+  destruct (days_cfd (iso_monday y w)) as [Wz _].
+  assert (EMz : monday_of (civil_from_days (iso_monday y w)) = iso_monday y w) by (apply monday_of_cfd_monday; apply iso_monday_is_monday).
+  destruct (w <=? weeks_in_year y) eqn:E5.
+  - rewrite (iso_week_of_monday _ y Wz) by (rewrite EMz; unfold iso_monday; lia). cbn [snd]. rewrite EMz.
+    replace ((iso_monday y w - week1_monday y) / 7 + 1) with w by (unfold iso_monday; Z.div_mod_to_equations; lia).
+    rewrite Z.eqb_refl. reflexivity.
+  - rewrite (iso_week_of_monday _ (y + 1) Wz) by (rewrite EMz; unfold iso_monday; lia). cbn [snd]. rewrite EMz.
+    replace ((iso_monday y w - week1_monday (y + 1)) / 7 + 1) with (w - weeks_in_year y) by (unfold iso_monday; Z.div_mod_to_equations; lia).
+    destruct (w - weeks_in_year y =? w) eqn:E6; [lia|]. reflexivity.
 Qed.
 
 (* a week pattern's Monday gives a representable week except for 9999-W52 *)
@@ -318,7 +336,7 @@ Qed.
 (* the week constructor followed by Period() *)
 Definition week_outcome (y w : Z) : outcome period :=
   if w <? 1 then Err EInvalidPeriod
-  else if (y =? 9999) && (52 <=? w) then Crash CUnrepresentableDate
+  else if (y =? 9999) && (52 <=? w) then Err EInvalidPeriod
   else if w <=? weeks_in_year y
        then Ok (civil_from_days (iso_monday y w), civil_from_days (iso_monday y w + 6))
        else Err EInvalidPeriod.
@@ -332,25 +350,13 @@ Lemma week_pattern_outcome y w : 0 <= y <= 9999 -> 0 <= w <= 99 ->
 Proof.
   intros Hy Hw. rewrite week_from_numbers_spec by assumption. unfold week_outcome.
   destruct (w <? 1) eqn:E1; [reflexivity|].
-  destruct ((y =? 9999) && (53 <=? w)) eqn:E2.
-  - destruct ((y =? 9999) && (52 <=? w)) eqn:E3; [reflexivity|lia].
-  - destruct (w <=? weeks_in_year y) eqn:E4.
-    + pose proof (week1_ge_D0 y ltac:(lia)) as G0. pose proof (week1_step y) as [S Rw].
-      assert (Hlo : D0 <= iso_monday y w) by (unfold iso_monday; lia).
-      assert (EM : monday_of (civil_from_days (iso_monday y w)) = iso_monday y w) by (apply monday_of_cfd_monday; apply iso_monday_is_monday).
-      destruct ((y =? 9999) && (52 <=? w)) eqn:E3.
-      * (* 9999-W52: the constructor succeeds, Period() panics *)
-        assert (y = 9999) by lia. subst y. destruct week1_9999 as [W9 W52]. assert (w = 52) by lia. subst w.
-        assert (Hz : D0 <= iso_monday 9999 52 <= D1) by (unfold iso_monday; rewrite W9; unfold D0, D1; lia).
-        destruct (cfd_valid_days _ Hz) as [V _]. cbn [period_of]. rewrite week_period_spec by exact V. rewrite EM.
-        destruct ((D0 <=? iso_monday 9999 52) && (iso_monday 9999 52 + 6 <=? D1)) eqn:E5; [|reflexivity].
-        unfold iso_monday in E5. rewrite W9 in E5. lia.
-      * destruct (iso_monday_representable y w Hy ltac:(lia) ltac:(lia)) as [R1 R2].
-        destruct (cfd_valid_days (iso_monday y w) ltac:(lia)) as [V _]. cbn [period_of].
-        rewrite week_period_spec by exact V. rewrite EM.
-        destruct ((D0 <=? iso_monday y w) && (iso_monday y w + 6 <=? D1)) eqn:E5; [reflexivity|lia].
-    + destruct ((y =? 9999) && (52 <=? w)) eqn:E3; [|reflexivity].
-      destruct week1_9999 as [_ W52]. assert (y = 9999) by lia. subst y. lia.
+  destruct ((y =? 9999) && (52 <=? w)) eqn:E2; [reflexivity|].
+  destruct (w <=? weeks_in_year y) eqn:E4; [|reflexivity].
+  assert (EM : monday_of (civil_from_days (iso_monday y w)) = iso_monday y w) by (apply monday_of_cfd_monday; apply iso_monday_is_monday).
+  destruct (iso_monday_representable y w Hy ltac:(lia) ltac:(lia)) as [R1 R2].
+  destruct (cfd_valid_days (iso_monday y w) ltac:(lia)) as [V _]. cbn [period_of].
+  rewrite week_period_spec by exact V. rewrite EM.
+  destruct ((D0 <=? iso_monday y w) && (iso_monday y w + 6 <=? D1)) eqn:E5; [reflexivity|lia].
 Qed.
 
 (* ---- NewPeriodFromPatternString on each shape ---- *)
@@ -534,36 +540,41 @@ Proof.
       apply week_outcome_of_names; try assumption. apply (is_num4_range _ _ Ny).
 Qed.
 
-(* the only patterns on which NewPeriodFromPatternString panics: week 52 and beyond of year 9999 *)
-Theorem pattern_crash_iff s :
-  (exists k, period_from_pattern s = Crash k) <-> (exists w, week_str s 9999 w /\ 52 <= w).
+Lemma week_outcome_no_crash y w k : week_outcome y w <> Crash k.
 Proof.
-  split.
-  - intros [k H]. destruct (pattern_shape s) as [E|[(y & N)|[(y & m & ys & ms & -> & Ny & Nm)|[(y & q & ys & qs & -> & Ny & Nq)|(y & w & Sw)]]]].
-    + rewrite E in H. discriminate.
-    + rewrite (pattern_year s y N) in H. discriminate.
-    + rewrite (pattern_month ys ms y m Ny Nm) in H. destruct ((1 <=? m) && (m <=? 12)); discriminate.
-    + rewrite (pattern_quarter ys qs y q Ny Nq) in H. destruct ((1 <=? q) && (q <=? 4)); discriminate.
-    + rewrite (pattern_week s y w Sw) in H. unfold week_outcome in H.
-      destruct (w <? 1) eqn:E1; [discriminate|].
-      destruct ((y =? 9999) && (52 <=? w)) eqn:E2.
-      * assert (y = 9999) by lia. subst y. exists w. split; [exact Sw | lia].
-      * destruct (w <=? weeks_in_year y); discriminate.
-  - intros (w & Sw & Hw). exists CUnrepresentableDate. rewrite (pattern_week s 9999 w Sw). unfold week_outcome.
-    destruct (w <? 1) eqn:E1; [lia|]. destruct ((9999 =? 9999) && (52 <=? w)) eqn:E2; [reflexivity|lia].
+  unfold week_outcome. destruct (w <? 1); [discriminate|]. destruct ((y =? 9999) && (52 <=? w)); [discriminate|].
+  destruct (w <=? weeks_in_year y); discriminate.
 Qed.
 
-(* everything else that names no period is rejected *)
-Theorem pattern_reject s :
-  (forall since until, ~ names_period s since until) -> ~ (exists w, week_str s 9999 w /\ 52 <= w) ->
-  period_from_pattern s = Err EInvalidPeriod.
+(* since the fix 9e99f6b NewPeriodFromPatternString never panics, whatever the string *)
+Theorem pattern_total s k : period_from_pattern s <> Crash k.
 Proof.
-  intros Hn Hc.
+  intros H. destruct (pattern_shape s) as [E|[(y & N)|[(y & m & ys & ms & -> & Ny & Nm)|[(y & q & ys & qs & -> & Ny & Nq)|(y & w & Sw)]]]].
+  - rewrite E in H. discriminate.
+  - rewrite (pattern_year s y N) in H. discriminate.
+  - rewrite (pattern_month ys ms y m Ny Nm) in H. destruct ((1 <=? m) && (m <=? 12)); discriminate.
+  - rewrite (pattern_quarter ys qs y q Ny Nq) in H. destruct ((1 <=? q) && (q <=? 4)); discriminate.
+  - rewrite (pattern_week s y w Sw) in H. exact (week_outcome_no_crash y w k H).
+Qed.
+
+(* the week patterns of year 9999 from W52 on (W52 would end on 10000-01-02, the others do not exist) are rejected *)
+Theorem pattern_9999_rejected s w : week_str s 9999 w -> 52 <= w -> period_from_pattern s = Err EInvalidPeriod.
+Proof.
+  intros Sw Hw. rewrite (pattern_week s 9999 w Sw). unfold week_outcome.
+  destruct (w <? 1) eqn:E1; [reflexivity|]. destruct ((9999 =? 9999) && (52 <=? w)) eqn:E2; [reflexivity|lia].
+Qed.
+
+(* everything that names no period is rejected *)
+Theorem pattern_reject s :
+  (forall since until, ~ names_period s since until) -> period_from_pattern s = Err EInvalidPeriod.
+Proof.
+  intros Hn.
   destruct (pattern_shape s) as [E|[(y & N)|[(y & m & ys & ms & -> & Ny & Nm)|[(y & q & ys & qs & -> & Ny & Nq)|(y & w & Sw)]]]].
   - exact E.
   - exfalso. apply (Hn (mk y 1 1) (mk y 12 31)). left. exists y. auto.
   - rewrite (pattern_month ys ms y m Ny Nm). destruct ((1 <=? m) && (m <=? 12)) eqn:E; [|reflexivity].
-    exfalso. apply (Hn (mk y m 1) (mk y m (days_in_month y m))). right; left. exists ys, ms, y, m. split; [reflexivity|]. split; [exact Ny|]. split; [exact Nm|]. split; [lia|]. split; reflexivity.
+    exfalso. apply (Hn (mk y m 1) (mk y m (days_in_month y m))). right; left.
+    exists ys, ms, y, m. split; [reflexivity|]. split; [exact Ny|]. split; [exact Nm|]. split; [lia|]. split; reflexivity.
   - rewrite (pattern_quarter ys qs y q Ny Nq). destruct ((1 <=? q) && (q <=? 4)) eqn:E; [|reflexivity].
     exfalso. apply (Hn (mk y (3 * q - 2) 1) (mk y (3 * q) (days_in_month y (3 * q)))). right; right; left.
     exists ys, qs, y, q. split; [reflexivity|]. split; [exact Ny|]. split; [exact Nq|]. split; [lia|]. split; reflexivity.
@@ -572,11 +583,9 @@ Proof.
     + exfalso. apply (Hn since until). right; right; right. exists y, w. split; [exact Sw|].
       destruct Sw as (ys & ws & _ & Ny & _). apply (week_outcome_ok y w); [apply (is_num4_range _ _ Ny) | exact Ew].
     + unfold week_outcome in Ew. destruct (w <? 1); [injection Ew as <-; reflexivity|].
-      destruct ((y =? 9999) && (52 <=? w)); [discriminate|]. destruct (w <=? weeks_in_year y); [discriminate|].
+      destruct ((y =? 9999) && (52 <=? w)); [injection Ew as <-; reflexivity|]. destruct (w <=? weeks_in_year y); [discriminate|].
       injection Ew as <-. reflexivity.
-    + exfalso. apply Hc. unfold week_outcome in Ew. destruct (w <? 1) eqn:E1; [discriminate|].
-      destruct ((y =? 9999) && (52 <=? w)) eqn:E2; [|destruct (w <=? weeks_in_year y); discriminate].
-      assert (y = 9999) by lia. subst y. exists w. split; [exact Sw | lia].
+    + exfalso. exact (week_outcome_no_crash y w k Ew).
 Qed.
 
 (* number of ISO weeks of a year by the usual rule: 53 iff 1 January is a Thursday, or a Wednesday in a leap year *)
